@@ -120,23 +120,34 @@ CompressBound(n) == n + (n \div 255) + 16
 \* encodes n source bytes: offsets in 1..65535 and within the output so far, last
 \* sequence literal-only, last 5 bytes literals, last match starts >= 12 bytes before
 \* the end.  seqs is a sequence of <<lit, off, mlen>>, the last with off = mlen = 0.
-RECURSIVE StartOf(_, _)
-StartOf(seqs, k) ==                 \* output position (0-based) where sequence k's match starts
-    IF k = 1 THEN seqs[1][1]
-    ELSE StartOf(seqs, k - 1) + seqs[k - 1][3] + seqs[k][1]
+\* single pass: k = sequence index, pos = output position where sequence k starts,
+\* lms = start of the last match seen so far (-1 if none)
+RECURSIVE SV(_, _, _, _, _)
+SV(seqs, k, pos, lms, n) ==
+    LET lit == seqs[k][1]  off == seqs[k][2]  m == seqs[k][3]
+    IN  IF k = Len(seqs)
+        THEN /\ off = 0 /\ m = 0
+             /\ pos + lit = n
+             /\ (lms >= 0 => lit >= 5 /\ lms <= n - 12)
+        ELSE /\ off >= 1 /\ off <= 65535
+             /\ m >= MinMatch
+             /\ off <= pos + lit
+             /\ SV(seqs, k + 1, pos + lit + m, pos + lit, n)
 
-RECURSIVE TotalLen(_, _)
-TotalLen(seqs, k) == IF k = 0 THEN 0 ELSE TotalLen(seqs, k - 1) + seqs[k][1] + seqs[k][3]
+StrictValid(seqs, n) == Len(seqs) >= 1 /\ SV(seqs, 1, 0, 0 - 1, n)
 
-StrictValid(seqs, n) ==
-    LET K == Len(seqs)
-    IN  /\ K >= 1
-        /\ seqs[K][2] = 0 /\ seqs[K][3] = 0
-        /\ TotalLen(seqs, K) = n
+\* The same predicate for long sequence lists (field-level traces), without recursion:
+\* each entry is <<lit, off, mlen, pos>> where pos is the logged output position at which
+\* the sequence starts; the chain of positions is checked, so pos need not be trusted.
+StrictValidP(s, n) ==
+    LET K == Len(s)
+    IN  /\ K >= 1 /\ s[1][4] = 0
         /\ \A k \in 1 .. K - 1 :
-              /\ seqs[k][2] >= 1 /\ seqs[k][2] <= 65535
-              /\ seqs[k][3] >= MinMatch
-              /\ seqs[k][2] <= StartOf(seqs, k)
-        /\ K > 1 => /\ seqs[K][1] >= 5
-                    /\ StartOf(seqs, K - 1) <= n - 12
+              /\ s[k + 1][4] = s[k][4] + s[k][1] + s[k][3]
+              /\ s[k][2] >= 1 /\ s[k][2] <= 65535
+              /\ s[k][3] >= MinMatch
+              /\ s[k][2] <= s[k][4] + s[k][1]
+        /\ s[K][2] = 0 /\ s[K][3] = 0
+        /\ s[K][4] + s[K][1] = n
+        /\ (K > 1 => s[K][1] >= 5 /\ s[K - 1][4] + s[K - 1][1] <= n - 12)
 =============================================================================
